@@ -269,7 +269,7 @@ class Live:
             sv_subset = h.sv_list() is None or osv is None or set(h.sv_list()) <= set(osv)    # else the client's other extensions (signature_algorithms) do not fit the version: key-fitness oracle no longer applies
             och = Hello(heads[cfg][0])
             ver_down = ENC.get(struct.unpack(">H", h.version)[0], 0) <= ENC.get(struct.unpack(">H", och.version)[0], 0)      # same reason for client_version raised above what the client speaks
-            if n1 and "cgrp" not in cfg and sv_subset and (ver_down or h.sv_list() is not None) and all(op.split("=")[0] in ("version", "suites", "addsuite", "dropsuite", "comp", "fliprandom", "sid") or op.startswith("delext=23") or op.startswith("setext=43") for op in ops):
+            if n1 and "cgrp" not in cfg and "sops" not in cfg and sv_subset and (ver_down or h.sv_list() is not None) and all(op.split("=")[0] in ("version", "suites", "addsuite", "dropsuite", "comp", "fliprandom", "sid") or op.startswith("delext=23") or op.startswith("setext=43") for op in ops):
                 if not (n1[1]["ver"] & V13ANY) or n1[1]["err"] == 255:
                     sreq = cfg_fields(cfg).get("sems") == "1"
                     self.chello.append((chello_case(h, prio_list(cv[3]), self.sdis_of(cfg), 1 if sreq else 0, self.ok[self.key_of(cfg)]), server_observed(n1), sc))
@@ -407,6 +407,51 @@ def ccs_cases(table, ok, r, n):
         dis = [d for d in dis if d]
         cases.append("ccs %s %d %d %s %s %s" % (key, supp, act | NEG, csv(dis, "%04x"), csv(lst, "%04x"), csv(ok[key], "%04x")))
     return cases
+
+
+def history_cases(table, ok, r, n):
+    """enable/disable HISTORIES through matrixSslSetCipherSuiteEnabledStatus: re-enable in the middle (holes), duplicates,
+    enable of never-disabled, unknown idents, overflow of the 32 slots, global switches"""
+    ids = [t[0] for t in table]
+    legacy = [t[0] for t in table if t[1] != 10]
+    fixed = ["d:c02f,d:c030,e:c02f", "d:c02f,d:c030,e:c02f,d:c030,e:c030", "d:c02f,d:c030,d:c027,e:c030,e:c02f", "e:c02f", "d:c02f,d:c02f,e:c02f",
+             "d:1234,d:c02f", "d:0000,d:c02f", "D:c02f,d:c030,E:c02f", "D:c02f,D:c02f,E:c02f", "D:c030,d:c030,e:c030", "d:c030,D:c030,E:c030",
+             "d:c02f,e:c02f,d:c030,d:c027,e:c030,d:c02f"]
+    cases = []
+    def add(key, act, ops, lst):
+        supp = act | T11 | T12 | T13
+        cases.append("dh %s %d %d %s %s %s" % (key, supp, act | NEG, ops, csv(lst, "%04x"), csv(ok[key], "%04x")))
+    for ops in fixed:
+        for key in ("rsa", "ec"):
+            add(key, T12, ops, [0xc030, 0xc02f, 0xc027, 0xc02c, 0xc02b, 0x002f])
+    # overflow: more than SSL_MAX_DISABLED_CIPHERS distinct suites, then holes, then the late ones again
+    allids = ids[:]
+    for k in (31, 32, 33, 36):
+        first = allids[:k]
+        ops = ["d:%04x" % i for i in first]
+        add("rsa", T12, ",".join(ops), first[-3:] + first[:2] + [0xc030])
+        ops2 = ops + ["e:%04x" % first[0], "e:%04x" % first[5], "d:%04x" % allids[-1], "d:%04x" % allids[-2], "e:%04x" % first[1], "d:%04x" % first[-1]]
+        add("rsa", T12, ",".join(ops2), [first[0], first[1], first[5], allids[-1], allids[-2], first[-1], first[10]])
+    while len(cases) < n:
+        key = r.choice(["rsa", "ec"]); act = r.choice([T11, T12, T12, T13])
+        pool = r.sample(ids, r.choice([2, 3, 4, 6])) + ([0x1234] if r.random() < 0.1 else [])
+        ops = []
+        for _ in range(r.choice([2, 3, 4, 6, 8, 12])):
+            k = r.choice("ddddeeeDE" if r.random() < 0.3 else "dddee")
+            ops.append("%s:%04x" % (k, r.choice(pool)))
+        lst = pool[:] + r.sample(ids, 2); r.shuffle(lst)
+        add(key, act, ",".join(ops), lst)
+    return cases
+
+
+def history_disabled(ops, rcs):
+    """spec: per-session / globally currently disabled idents = last SUCCESSFUL operation on the ident was a disable"""
+    sess, glob = {}, {}
+    for op, rc in zip(ops, rcs):
+        if rc != "0": continue
+        k, i = op.split(":"); i = int(i, 16)
+        (glob if k in "DE" else sess)[i] = k in "dD"
+    return set(i for i, v in sess.items() if v), set(i for i, v in glob.items() if v)
 
 
 LEGACY_POOL = [0xc02f, 0xc030, 0xc027, 0xc028, 0xc013, 0xc014, 0x009c, 0x009d, 0x003c, 0x003d, 0x002f, 0x0035, 0xc02b, 0xc02c, 0xc023, 0xc009, 0xc00a, 0xcca8, 0xcca9, 0x000a]
@@ -564,6 +609,28 @@ def run(ck):
                 ck.spec_violation("select-outside-intersection", "tls13IntersectionPrioritySelect returned an element outside a x b minus f",
                                   {"harness": "h_neg", "case": c, "observed": o})
 
+    # enable/disable histories through the public API (slot reuse, holes, duplicates, overflow, global switches)
+    hc = [l.split(" :: ")[1] for l in corpus_cases() if l.startswith("dh :: ")]
+    hc = ["%s %s" % (c, csv(ok[c.split()[1]], "%04x")) for c in hc] + history_cases(table, ok, r, ck.budget(400, 6000))
+    rc, impl, _ = ck.run_lines(h, [" ".join(c.split()[:6]) for c in hc]); rc2, model, _ = ck.run_lines(drv, hc)
+    ck.correspond("matrixSslSetCipherSuiteEnabledStatus histories: return codes, disabledCiphers[] slots, sslGetCipherSpec, chooseCipherSuite vs model",
+                  hc, impl, model, nontrivial=lambda c, o: "e:" in c or "E:" in c)
+    for c, o in zip(hc, impl):
+        m = re.match(r"rc=(\S*) slots=(\S+) gcs=(\S*) ccs=(-?\d+):([0-9a-f]{4})", o)
+        if not m: continue
+        t = c.split(); ops = [] if t[4] == "-" else t[4].split(","); lst = [int(x, 16) for x in t[5].split(",")]
+        sess, glob = history_disabled(ops, m.group(1).split(",") if m.group(1) else [])
+        ck.count("history:holes" if re.search(r"(^|,)0,.*[1-9a-f]", m.group(2)) else "history:compact")
+        if "L" in m.group(1): ck.count("history:overflow")
+        for sid, g in zip(lst, m.group(3).split(",")):
+            if sid and sid in (sess | glob) and g == "1":
+                ck.spec_violation("disabled-suite-usable:history", "sslGetCipherSpec returns a suite that the enable/disable history leaves disabled",
+                                  {"harness": "h_neg", "case": " ".join(t[:6]), "observed": o, "expected_by_spec": "suite %04x refused" % sid})
+        chosen = int(m.group(5), 16)
+        if m.group(4) == "0" and chosen and chosen in (sess | glob):
+            ck.spec_violation("disabled-suite-chosen:history", "chooseCipherSuite picks a suite that the enable/disable history leaves disabled",
+                              {"harness": "h_neg", "case": " ".join(t[:6]), "observed": o, "expected_by_spec": "suite %04x never chosen" % chosen})
+
     # default client lists (oracle for "offered" when no explicit list was given) and the model of sslGetCipherSpecListExt
     deflists = {}
     dlcases, dlimpl = [], []
@@ -608,6 +675,21 @@ def run(ck):
             "cv=4,3 sv=3 suite=c02f,1301", "cv=3 sv=3 key=ec", "cv=4 sv=4 key=ec", "cv=3 sv=3,4 scsv=1", "cv=2 sv=2,3 scsv=1", "cv=2 sv=2 scsv=1",
             "cv=3 sv=3 cems=1", "cv=3 sv=3 cems=-1 sems=1", "cv=3 sv=3 cems=-1", "cv=4 sv=4 cgrp=1d,17 sgrp=17", "cv=4 sv=4 cgrp=18 sgrp=17,18",
             "cv=4 sv=4 cgrp=19 sgrp=17", "cv=3,4 sv=4,3", "cv=2,3 sv=3,2", "cv=3 sv=3 suite=c02f sdis=c02f", "cv=3 sv=3 suite=002f,c02f sdis=002f"]
+    # enable/disable histories on the live server; the client offers exactly one suite
+    def hist_cfgs():
+        out = []
+        for key in ("rsa", "ec"):
+            pool = [x for x in LEGACY_POOL if x in ok[key] and x in table_ids]
+            for _ in range(ck.budget(6, 60)):
+                a, b, c3 = r.sample(pool, 3)
+                pats = [("d:%04x,d:%04x,e:%04x" % (a, b, a), b), ("d:%04x,d:%04x,e:%04x" % (a, b, a), a),
+                        ("d:%04x,d:%04x,d:%04x,e:%04x,e:%04x" % (a, b, c3, b, a), c3), ("d:%04x,e:%04x" % (a, a), a),
+                        ("D:%04x" % a, a), ("D:%04x,E:%04x" % (a, a), a), ("d:%04x,d:%04x,e:%04x,d:%04x" % (a, b, a, c3), b),
+                        ("d:%04x,d:%04x,e:%04x,d:%04x,e:%04x" % (a, b, a, b, b), b)]
+                for ops, offer in pats:
+                    out.append("cv=3 sv=3 key=%s suite=%04x sops=%s seed=%d" % (key, offer, ops, r.randrange(1, 1 << 30)))
+        return out
+    cfgs += hist_cfgs()
     seen = set(cfgs)
     for _ in range(ck.budget(120, 3000)):
         c = gen_config(r, table_ids)
@@ -628,8 +710,18 @@ def run(ck):
         f = cfg_fields(cfg)
         # model of the server's reaction to this ClientHello
         sreq = f.get("sems") == "1"
-        live.chello.append((chello_case(ch, sprio, live.sdis_of(cfg), 1 if sreq else 0, ok[f.get("key", "rsa")]), server_observed(n1), sc))
+        hist_s, hist_g = history_disabled(f["sops"].split(","), ["0"] * 99) if "sops" in f else (set(), set())
+        if "sops" not in f:
+            live.chello.append((chello_case(ch, sprio, live.sdis_of(cfg), 1 if sreq else 0, ok[f.get("key", "rsa")]), server_observed(n1), sc))
         c, s = n2
+        if "sops" in f:
+            offered1 = [x for x in ch.suites if x not in (SCSV, RENEG_SCSV)]
+            ck.count("live_history:%s" % ("refused" if not c["done"] else "completed"))
+            if c["done"] and s["done"] and c["suite"] in (hist_s | hist_g):
+                ck.spec_violation("live-suite-disabled-history", "handshake completed with a suite that the server's enable/disable history leaves disabled",
+                                  {"harness": "h_neg", "script": sc, "observed": n2, "expected_by_spec": "no handshake with %04x" % c["suite"]})
+            if not c["done"] and not (set(offered1) & (hist_s | hist_g)) and "e:%04x" % offered1[0] not in f["sops"].split(",")[-1:]:
+                ck.count("live_history:enabled_but_refused")
         if c["done"] != s["done"]:
             ck.spec_violation("one-sided-completion", "only one endpoint completed the handshake", {"harness": "h_neg", "script": sc, "observed": n2})
         if not (c["done"] and s["done"]):
@@ -671,7 +763,7 @@ def run(ck):
     # ---------------- (iii) man-in-the-middle single-field rewrites
     base = ["cv=3 sv=3", "cv=4 sv=4", "cv=4,3 sv=3", "cv=4,3,2 sv=4,3,2", "cv=3 sv=3 suite=c02f", "cv=4,3 sv=3 suite=c02f,1301", "cv=3 sv=3 cems=1",
             "cv=2 sv=2", "cv=3 sv=3 key=ec suite=c02b,c02c", "cv=4 sv=4 suite=1301", "cv=3,2 sv=3,2 suite=002f,c013", "cv=4,3 sv=4,3 key=ec"]
-    extra = [c for c in cfgs[23:] if "scsv" not in c][:ck.budget(6, 150)]
+    extra = [c for c in cfgs[23:] if "scsv" not in c and "sops" not in c][:ck.budget(6, 150)]
     mcfgs = base + extra
     chh = dict(zip(mcfgs, ng.heads(mcfgs, "c2s"))); shh = dict(zip(mcfgs, ng.heads(mcfgs, "s2c")))
     ch_items, sh_items = [], []
